@@ -257,6 +257,10 @@ func (cs crashsim) Run(c *Case, dir string) *Outcome {
 	var firstBad *sim.CrashSpec
 	var firstBadOpts work.OpenOpts
 	for si, spec := range states {
+		if PastDeadline() {
+			out.probe("stopped-at-deadline", 1)
+			break
+		}
 		out.Evals++
 		Tick()
 		img, nvol, nkept := disk.Image(spec)
